@@ -27,6 +27,7 @@ def run(repo, run, tier):
     orientation(repo, run, m)
     restore(repo, run, m)
     exits(repo, run, m)
+    at_target(repo, run, m)
 
 
 # ------------------------------------------------------------------------------------------------
@@ -486,3 +487,43 @@ def exits(repo, run, m):
         run.judged(rid, "`%s` starts False" % nme, ok=ok)
         if not ok:
             run.report("C03.7", DS, init[0] if init else loop, "the stop flag `%s` is not initialised to False before the step loop" % nme, text="stop flag initial value")
+
+
+def at_target(repo, run, m):
+    """ends at the target to within a few rounding units: integrate() may decline to step only when it already IS at the target at rounding level"""
+    rid = run.rule("C03.8", "every `return` of integrate() that precedes the step loop (no step taken, status untouched) is guarded by |tf - t[counter]| < k * machine epsilon "
+                            "of the state's dtype (k a small constant): a looser or relative closeness test (allclose / isclose) leaves the grid short of the target silently", floor=1)
+    c = m.canon
+    kl = path_key(m.loop, m.fn)
+    rets = [st for st in walk_no_nested(m.fn) if isinstance(st, ast.Return) and path_key(st, m.fn) < kl]
+    if not rets:
+        run.judged(rid, "no early return before the step loop", nontrivial=False)
+        return
+    from ..sym import path_condition, tree_atoms, BoolTracker
+    for r in rets:
+        bt = BoolTracker(canon=c)
+        pc, _ = path_condition(r, m.fn, tracker=bt)
+        atoms = tree_atoms(pc)
+        good = []
+        for a in atoms:
+            leaf = bt.leaves.get(a)
+            if isinstance(leaf, tuple):
+                left, op, right = leaf
+                for x, y, ops in ((left, right, (ast.Lt, ast.LtE)), (right, left, (ast.Gt, ast.GtE))):
+                    ax = _abs_arg(x)
+                    if ax is None or not isinstance(op, ops) or not _is_remaining(m, c, ax):
+                        continue
+                    # y: [k *] D.epsilon(...) / D.tol_epsilon(...)
+                    eps_calls = [cc for cc in ast.walk(y) if isinstance(cc, ast.Call) and fname(cc) in ("epsilon", "tol_epsilon")]
+                    others = [n for n in ast.walk(y) if isinstance(n, ast.Name) and not any(n is z for cc in eps_calls for z in ast.walk(cc))]
+                    consts = []
+                    for n in ast.walk(y):
+                        if isinstance(n, ast.Constant) and isinstance(n.value, (int, float)) and not any(n is z for cc in eps_calls for z in ast.walk(cc)):
+                            consts.append(n.value)
+                    if len(eps_calls) == 1 and not others and all(0 < v <= 1024 for v in consts):
+                        good.append(a)
+        ok = len(atoms) == 1 and len(good) == 1
+        run.judged(rid, "early return under %s" % [a.split("@")[0][:80] for a in atoms], ok=ok)
+        if not ok:
+            run.report("C03.8", DS, r, "integrate() returns without stepping under a condition that is not `|tf - t[counter]| < k*epsilon(dtype)` (atoms: %s): a target that is "
+                                       "merely close to the current time is never reached, and the call still counts as successful" % ([a.split("@")[0][:70] for a in atoms],))
